@@ -1,4 +1,5 @@
 import ChfVerif.Lemmas.BerSafe
+import ChfVerif.Spec.BerSpec
 import ChfVerif.Gen.AsnGlobals
 /-
   C16 — the BER decoder is safe on arbitrary bytes: an error or a value, never a panic.
@@ -53,6 +54,62 @@ theorem C16_overlong (t : Ty) (p : Params) (b : Bytes) (tal : Tal)
 theorem C16_zero_length_bits : (parseBitString []).isErr = true := by decide
 theorem C16_zero_length_int : (parseSigned []).isErr = true := by decide
 example : (parseBitString [8, 1]).isErr = true := by decide     -- unused-bits count above 7
+
+/-- … at the level of whole elements, whatever follows them: a BOOLEAN / INTEGER / ENUMERATED / BIT STRING element
+    whose length octets say 0 is reported as an error (the element ends where its length says; octets behind it are
+    not its content) -/
+theorem C16_zero_length_element (t : Ty) (p : Params) (b : Bytes) (tal : Tal)
+    (ht : t = .bool ∨ t = .enum ∨ t = .bits ∨ ∃ w, t = .int w)
+    (hp : parseTagAndLength b = .ok tal) (h0 : tal.len = 0) (hnu : needsUnwrap t p = false) :
+    unmarshal t p b = .err := by
+  have hoff := (parseTagAndLength_spec b).2 tal hp
+  have hent : enter t p b = .err ∨ enter t p b = .ok (b.take tal.off, p, tal) := by
+    unfold enter
+    rw [hp]
+    simp only [h0, Nat.add_zero, hnu, Bool.false_eq_true, if_false]
+    by_cases h1 : tal.off > b.length
+    · left; simp [h1]
+    · by_cases h2 : (!tagOk t p tal) = true
+      · left; simp [h1, h2]
+      · right; simp [h1, h2]
+  have hfrom : from_ (b.take tal.off) tal.off = .ok [] := by
+    unfold from_
+    have hl : (b.take tal.off).length = tal.off := by rw [List.length_take]; omega
+    simp [hl]
+  have hl : (b.take tal.off).length = tal.off := by rw [List.length_take]; omega
+  rcases ht with rfl | rfl | rfl | ⟨w, rfl⟩ <;> rw [unmarshal]
+  all_goals first
+    | (intro _ h; cases h)
+    | (rcases hent with he | he
+       · rw [he]
+       · rw [he]
+         simp only [hfrom]
+         first
+           | simp [hl]
+           | decide
+           | simp [parseSigned, parseBitString])
+
+/-- the run-time oracle's predicate implies the error -/
+theorem C16_zeroLenPrim_is_error (t : Ty) (p : Params) (b : Bytes) (h : zeroLenPrim t p b = true) :
+    unmarshal t p b = .err := by
+  unfold zeroLenPrim at h
+  simp only [Bool.and_eq_true, Bool.not_eq_true'] at h
+  obtain ⟨⟨ht, hnu⟩, hlen⟩ := h
+  cases hp : parseTagAndLength b with
+  | ok tal =>
+    rw [hp] at hlen
+    have h0 : tal.len = 0 := by simpa using hlen
+    refine C16_zero_length_element t p b tal ?_ hp h0 hnu
+    cases t <;> simp at ht <;> simp
+  | err => rw [hp] at hlen; cases hlen
+  | panic => rw [hp] at hlen; cases hlen
+
+/-- non-vacuity and the concrete shapes: `01 00 07` into a BOOLEAN, `02 00 ff` into an INTEGER, `0a 00 01` into an
+    ENUMERATED are errors (a trailing octet used to be taken for the content) -/
+example : unmarshal .bool {} [1, 0, 7] = .err :=
+  C16_zero_length_element .bool {} [1, 0, 7] ⟨0, false, 1, 0, 2⟩ (Or.inl rfl) (by rfl) rfl rfl
+example : unmarshal (.int 64) {} [2, 0, 255] = .err :=
+  C16_zero_length_element (.int 64) {} [2, 0, 255] ⟨0, false, 2, 0, 2⟩ (Or.inr (Or.inr (Or.inr ⟨64, rfl⟩))) (by rfl) rfl rfl
 
 /-- a wrongly tagged element is never accepted by the entry checks -/
 theorem C16_wrong_tag (t : Ty) (p : Params) (b : Bytes) (tal : Tal)
